@@ -163,8 +163,22 @@ fn good_call(rng: &mut Rng, inst: InstRef, entries: &[Entry], kmax: u64, inputs:
     }
 }
 
+/// history fault `foreign.type`: a call on a transform of the other float type in between this world's calls
+fn foreign_op(rng: &mut Rng, nmax: usize) -> Op {
+    Op::Foreign {
+        pk: *rng.pick(&PKS),
+        len: pools(nmax.min(4096)).pick_pos(rng),
+        dir: pick_dir(rng),
+        entry: *rng.pick(&[Entry::Process, Entry::Process, Entry::InPlace, Entry::OutOfPlace, Entry::Immut]),
+        k: pick_k(rng, 3),
+        seed: rng.next(),
+        place: pick_place(rng),
+    }
+}
+
 fn pick_fault(rng: &mut Rng) -> ShapeFault {
-    match rng.below(12) {
+    match rng.below(13) {
+        12 => ShapeFault::EmptyData { out_chunks: rng.below(3) as u8, out_extra: rng.below(2) as u8, short_scratch: rng.chance(0.5) },
         0..=4 => ShapeFault::Data { k: 1 + rng.below(4) as u8, delta: *rng.pick(&[-1, 1, -1, 1, 2, -2]) },
         5 => ShapeFault::Data { k: 0, delta: 1 },
         6 => ShapeFault::Out { delta: *rng.pick(&[-1i64, 1, 1, -1]) },
@@ -205,7 +219,9 @@ fn gen_c11(rng: &mut Rng, tier: Tier) -> Case {
         for _ in 0..nops {
             let inst = InstRef::Shared(if rng.chance(0.7) { hot } else { rng.below(ninst as u64) as u16 });
             let r = rng.below(100);
-            if r < 82 {
+            if r < 6 && elem != ElemKind::Fx {
+                ops.push(foreign_op(rng, nmax));
+            } else if r < 82 {
                 ops.push(good_call(rng, inst, &ENTRIES, 4, &inputs));
             } else if r < 90 {
                 ops.push(Op::BadCall { inst, entry: *rng.pick(&ENTRIES), fault: pick_fault(rng), place: pick_place(rng), seed: rng.next() });
@@ -513,8 +529,18 @@ fn gen_c10(rng: &mut Rng, tier: Tier, index: u64) -> Case {
     }
     let nthreads = 1 + rng.below(4) as usize;
     // a small set of related lengths per case so that requests hit one another's cache entries
-    let fam = rng.chance(0.3);
-    let lens: Vec<usize> = if fam { pools(nmax).family(rng) } else { (0..2 + rng.below(4)).map(|_| pools(nmax).pick_chain(rng)).collect() };
+    let mode = rng.below(100);
+    let fam = mode < 30;
+    // prime runs are taken in order (one cursor for the whole case), so that the linearised history is mostly monotone
+    let run = (30..50).contains(&mode);
+    let mut cursor = 0usize;
+    let lens: Vec<usize> = if fam {
+        pools(nmax).family(rng)
+    } else if run {
+        pools(nmax).prime_run(rng)
+    } else {
+        (0..2 + rng.below(4)).map(|_| pools(nmax).pick_chain(rng)).collect()
+    };
     // inner-length families matter when the direction agrees: bias towards one direction there
     let fam_dir = pick_dir(rng);
     let mut left = 3 + rng.below(10) as usize; // total requests <= 12
@@ -524,11 +550,18 @@ fn gen_c10(rng: &mut Rng, tier: Tier, index: u64) -> Case {
         let nreq = (1 + rng.below(5) as usize).min(left.max(1));
         left = left.saturating_sub(nreq);
         for _ in 0..nreq {
-            let planner = rng.below(npl as u64) as u16;
-            let len = if rng.chance(0.85) { *rng.pick(&lens) } else { pools(nmax).pick(rng) };
-            let r = rng.below(100);
+            let planner = if run && rng.chance(0.8) { 0 } else { rng.below(npl as u64) as u16 };
+            let len = if run && !lens.is_empty() {
+                cursor += 1;
+                lens[(cursor - 1) % lens.len()]
+            } else if rng.chance(0.85) {
+                *rng.pick(&lens)
+            } else {
+                pools(nmax).pick(rng)
+            };
+            let r = if run { rng.below(80) } else { rng.below(100) };
             if r < 70 {
-                let dir = if fam && rng.chance(0.8) { fam_dir } else { pick_dir(rng) };
+                let dir = if (fam || run) && rng.chance(0.8) { fam_dir } else { pick_dir(rng) };
                 ops.push(Op::Plan { planner, len, dir, via: rng.chance(0.3), slot });
                 ops.push(checked_call(rng, slot, 3));
                 slot += 1;
@@ -744,7 +777,9 @@ fn gen_c03(rng: &mut Rng, tier: Tier, miri: bool, fixed: Option<(ElemKind, Vec<S
         };
         for _ in 0..nops {
             let inst = InstRef::Shared(rng.below(ninst as u64) as u16);
-            let op = if rng.chance(0.6) {
+            let op = if elem != ElemKind::Fx && rng.chance(0.1) {
+                foreign_op(rng, if miri { 64 } else { nmax })
+            } else if rng.chance(0.6) {
                 Op::Call { inst, entry: *rng.pick(&ENTRIES), k: pick_k(rng, if miri { 3 } else { 8 }), input: InputSpec { seed: rng.next(), kind: InputKind::Dense }, scratch_extra: 0, scratch_fill: Fill::Zero, out_fill: Fill::Zero, place: pick_place(rng), dft_ref: false }
             } else {
                 Op::BadCall { inst, entry: *rng.pick(&ENTRIES), fault: pick_fault(rng), place: pick_place(rng), seed: rng.next() }
